@@ -19,7 +19,8 @@ pub struct ContractMonitor {
     /// the compiled query, when known: used only to name the *site* of a violation in signatures
     pub iq: Option<Arc<trustfall_core::ir::IndexedQuery>>,
     pub m: Rc<SchemaModel>,
-    pub ds: Rc<Dataset>,
+    /// concrete type of a vertex, given its key
+    pub type_of: Rc<dyn Fn(u64) -> Option<String>>,
     pub calls: Vec<CallRec>,
     pub errs: Vec<(String, String)>,
     pub calls_checked: u64,
@@ -29,7 +30,11 @@ pub struct ContractMonitor {
 
 impl ContractMonitor {
     pub fn new(m: Rc<SchemaModel>, ds: Rc<Dataset>) -> Self {
-        ContractMonitor { iq: None, m, ds, calls: vec![], errs: vec![], calls_checked: 0, contexts_checked: 0, missing_vertex_contexts: 0 }
+        let type_of: Rc<dyn Fn(u64) -> Option<String>> = Rc::new(move |v| ds.vertices.get(v as usize).map(|x| x.ty.clone()));
+        Self::with_type_of(m, type_of)
+    }
+    pub fn with_type_of(m: Rc<SchemaModel>, type_of: Rc<dyn Fn(u64) -> Option<String>>) -> Self {
+        ContractMonitor { iq: None, m, type_of, calls: vec![], errs: vec![], calls_checked: 0, contexts_checked: 0, missing_vertex_contexts: 0 }
     }
     fn err(&mut self, k: &str, d: String) {
         if self.errs.len() < 20 {
@@ -142,7 +147,7 @@ impl Observer for ContractMonitor {
             Some(v) => {
                 let rec = self.calls.iter().rev().find(|c| c.id == id).cloned();
                 if let Some(rec) = rec {
-                    let concrete = self.ds.vertices[v as usize].ty.clone();
+                    let concrete = (self.type_of)(v).unwrap_or_else(|| "<unknown vertex>".into());
                     if !self.m.is_subtype(&concrete, &rec.type_name) {
                         self.err(
                             "active-vertex-not-an-instance-of-type-name",
